@@ -111,7 +111,16 @@ func (l *listener) listenLoop() {
 					return
 				}
 				internalLogger.info("accepted a new stream")
+				// take the stream's reference while the listener still holds its own (both change under l.mu):
+				// wg.Add from zero would race with the wg.Wait goroutine that listener.Close has just released
+				l.mu.Lock()
+				if _, ok := l.sessions[session]; !ok {
+					l.mu.Unlock()
+					_ = stream.Close()
+					return
+				}
 				conn := newStreamWrapper(stream, stream.LocalAddr(), stream.RemoteAddr(), wg)
+				l.mu.Unlock()
 				select {
 				case <-l.closeCh:
 					// nobody will ever accept this conn: release its session reference
